@@ -36,7 +36,15 @@ impl Deb822LikeParagraph for crate::lossy::Paragraph {
 
 impl Deb822LikeParagraph for crate::lossless::Paragraph {
     fn get(&self, key: &str) -> Option<String> {
-        crate::lossless::Paragraph::get(self, key).map(|v| v.to_string())
+        // (a paragraph assembled from items can hold empty value lines, one
+        // read from text cannot: report the lines with content in both cases,
+        // as for the lossy paragraph above)
+        crate::lossless::Paragraph::get(self, key).map(|v| {
+            v.split('\n')
+                .filter(|line| !line.is_empty())
+                .collect::<Vec<_>>()
+                .join("\n")
+        })
     }
 
     fn set(&mut self, key: &str, value: &str) {
